@@ -155,11 +155,15 @@ func crashRun(run int, seed int64, blocks int, density int, out *json.Encoder) e
 	// pass 1: a dry run to learn how many file-system operations the history takes and where the commits are
 	type span struct{ from, to int }
 	var commitSpans []span
+	genesisOps := 0 // file-system operations until the database exists and the genesis version is committed
 	history := func(cfs *crashFS, rec map[uint64]recorded, onCommit func(v uint64, from, to int)) error {
 		store.VerifPurgeBlockCache()
 		nd, err := nodeOnFS(cfs, g, n0, osDir)
 		if err != nil {
 			return err
+		}
+		if genesisOps == 0 {
+			genesisOps = cfs.ops
 		}
 		sim := &ledgerSim{n: nd, fee: 100, small: true}
 		hrng := rand.New(rand.NewSource(seed)) // same transactions in both passes
@@ -233,7 +237,10 @@ func crashRun(run int, seed int64, blocks int, density int, out *json.Encoder) e
 				continue
 			}
 			line := CrashLine{Kind: "image", Run: run, Op: op, Pct: pct, Phase: "between-commits", TotalOps: total}
-			line.Committed = 1 // the genesis commit is version 1
+			line.Committed = 1    // the genesis commit is version 1
+			if op <= genesisOps { // the database is still being created / genesis is being written: nothing is committed yet
+				line.Phase, line.Committed = "before-genesis", 0
+			}
 			for i, s := range commitSpans {
 				if s.to < op {
 					line.Committed = uint64(i + 2)
